@@ -189,6 +189,16 @@ def judge(case, rep, S):
         rep.cnt("rejected_unknown_type")
     else:
         rep.viol("unknown_type_accepted", "complexity type %r accepted on %s: %r" % (bad_t, seq, r))
+    if N < 10:
+        # the documented default window is 10: longer than this sequence, so the default call is rejected as well
+        for t in ("WF", "LC", "LZW"):
+            for form in ("default", "explicit"):
+                try:
+                    r = obj.get_linear_complexity(complexityType=t) if form == "default" else obj.get_linear_complexity(t, 20, {}, 10)
+                except Exception:
+                    rep.cnt("rejected_long_window")
+                else:
+                    rep.viol("long_window_accepted", "%s with the %s window 10 on %s (N=%d) answered %r" % (t, form, seq, N, np.asarray(r).tolist()), sig={"type": t})
     for t in ("WF", "LC", "LZW"):
         w = N + rng.choice([1, 1, 2, 5, 10, N, 10 * N])
         try:
